@@ -82,7 +82,8 @@ def gen_accessor(rng, ctx):
     if r < 0.35:
         return ["local", n]
     ns = rng.choice(NSS)
-    if r < 0.6 and ns:
+    if r < 0.6 and (ns or rng.random() < 0.5):
+        # also the Clark notation of a name in no namespace, "{}name" (seeded C11-9)
         return ["clark", ns, n]
     return ["pair", ns, n]
 
